@@ -101,7 +101,7 @@ def _r1(ctx):
 
 def _r2(ctx):
     prog = ctx.prog
-    ctx.rule("R-C17-2", floor=6, what="tensor assembly: consumed triangle and diagonal hold s_ij at (i,j)")
+    ctx.rule("R-C17-2", floor=7, what="tensor assembly: consumed triangle and diagonal hold s_ij at (i,j)")
     f = prog.func(EQ + ":eigenval")
     lit = [n for n in ast.walk(f.node) if isinstance(n, ast.List) and len(n.elts) == 3 and
            all(isinstance(r, ast.List) and len(r.elts) == 3 for r in n.elts)]
@@ -137,6 +137,31 @@ def _r2(ctx):
             else:
                 ctx.violated(f, lit[0], "tensor entry (%d,%d) consumed by eigvalsh is %s, expected %s" % (i + 1, j + 1, M[r][c], want),
                              text="entry %d%d=%s" % (i + 1, j + 1, M[r][c]))
+    # every result of eigenval comes from the eigen-solver; a short cut around it must test ALL off-diagonal components
+    st_ev = ev[0]
+    while not isinstance(st_ev, ast.stmt):
+        st_ev = st_ev._parent
+    shear = [q for q in f.params if len(q) == 3 and q[0] == "s" and q[1] != q[2]]
+    for r_ in [x for x in walk_function(f.node) if isinstance(x, ast.Return) and x.value is not None]:
+        uses_solver = any(x is ev[0] for x in ast.walk(r_)) or (isinstance(r_.value, ast.Name) and isinstance(st_ev, ast.Assign) and
+                                                                   any(isinstance(t, ast.Name) and t.id == r_.value.id for t in st_ev.targets))
+        if uses_solver:
+            ctx.holds(f, r_, "eigenval returns the eigen-solver's result")
+            continue
+        par = r_._parent
+        tested = set()
+        if isinstance(par, ast.If):
+            for n_ in ast.walk(par.test):
+                if isinstance(n_, ast.Name) and n_.id in shear:
+                    tested.add(n_.id)
+        if set(shear) <= tested and shear:
+            ctx.holds(f, r_, "short cut without the eigen-solver tests all off-diagonal components %s" % sorted(tested))
+        else:
+            ctx.violated(f, r_, "eigenval returns %s without the eigen-solver although only %s of the off-diagonal components %s "
+                         "are tested: a tensor with a non-zero %s is treated as diagonal, principal stresses (Tresca, max/min "
+                         "principal) ignore that shear and rotation invariance is lost" %
+                         (norm_text(r_.value)[:60], sorted(tested) or "none", shear, "/".join(sorted(set(shear) - tested))),
+                         text="shortcut around eigvalsh")
 
 
 def _mises_reference():
@@ -222,6 +247,26 @@ def _manifest_nonneg(e):
     return False
 
 
+def _tolerance_scan(ctx, rule):
+    """absolute tolerances / rounding applied to stress-valued quantities break the scaling clause"""
+    prog = ctx.prog
+    n = 0
+    for key, fi in sorted(prog.functions.items()):
+        if fi.module.name != EQ:
+            continue
+        for c in calls_in(fi.node):
+            fn = call_name(c) or ""
+            if fn in ("np.isclose", "np.allclose", "math.isclose", "np.round", "np.around", "round", "np.rint", "np.trunc"):
+                st = c
+                while not isinstance(st, ast.stmt):
+                    st = st._parent
+                n += 1
+                ctx.violated(fi, st, "%s: %s applies an absolute tolerance / rounding to a stress-valued quantity: the outcome "
+                             "changes when the tensor is scaled by a positive factor (e.g. a trace of -130 times 2**-40 is "
+                             "treated as zero)" % (fi.name, norm_text(c)), rule=rule, text=norm_text(c))
+    return n
+
+
 def _r7(ctx):
     """Every square root in the equivalent-stress module takes a radicand that is non-negative by its form (sum of squares).
     An algebraically non-negative difference of products (s11^2 + ... - s11*s22 - ...) can round below zero - for hydrostatic
@@ -300,6 +345,7 @@ def _deg(e, env):
 def _r4(ctx):
     prog = ctx.prog
     ctx.rule("R-C17-4", floor=12, what="equivalent stresses have degree 1, sign helpers degree 0")
+    _tolerance_scan(ctx, "R-C17-4")
     m = prog.module(EQ)
     funcs = {}
     order = ["eigenval", "_sign_trace", "_sign_abs_max_principal", "tresca", "mises", "max_principal", "min_principal",
@@ -539,6 +585,31 @@ EP = "src/pylife/stress/equistress.py"
 
 def variants():
     out = []
+
+    def diag_fast_path(tree):
+        f = find_func(tree, "eigenval")
+        i = 1 if isinstance(f.body[0], ast.Expr) and isinstance(f.body[0].value, ast.Constant) else 0
+        f.body.insert(i, parse_stmt("if not np.any(s12) and not np.any(s13) and not np.any(s13):\n"
+                                    "    return np.sort(np.array([s11, s22, s33], dtype=float).T, axis=-1)"))
+        return True
+    out.append(witness("diagonal fast path that forgets s23", EP, diag_fast_path, "R-C17-2"))
+
+    def diag_fast_path_ok(tree):
+        f = find_func(tree, "eigenval")
+        i = 1 if isinstance(f.body[0], ast.Expr) and isinstance(f.body[0].value, ast.Constant) else 0
+        f.body.insert(i, parse_stmt("if not np.any(s12) and not np.any(s13) and not np.any(s23):\n"
+                                    "    return np.sort(np.array([s11, s22, s33], dtype=float).T, axis=-1)"))
+        return True
+    out.append(twin("diagonal fast path that tests all three shear components", EP, diag_fast_path_ok))
+
+    def trace_isclose(tree):
+        f = find_func(tree, "_sign_trace")
+        for n in ast.walk(f):
+            if isinstance(n, ast.Compare) and isinstance(n.ops[0], ast.Eq) and const_value(n.comparators[0]) == 0 and \
+                    isinstance(n._parent, ast.If):
+                return replace_node(n, parse_expr("np.isclose(s11 + s22 + s33, 0.0)"))
+        return False
+    out.append(witness("zero trace decided with np.isclose", EP, trace_isclose, "R-C17-4"))
 
     def mises_expanded(tree):
         f = find_func(tree, "mises")
